@@ -122,13 +122,16 @@ PairClauses(a, b, r, q) ==
 (*   c.els      sequence, one entry per versioned element of the engine    *)
 (*      owner    name of the algorithm the element belongs to (structural) *)
 (*      level    1 algorithm, 2 state vector, 3 value                      *)
-(*      cur      version the software declares for it ("d.i.b")            *)
+(*      incur    the software declares a version for it (always TRUE in    *)
+(*               the reference view)                                       *)
+(*      cur      that version ("d.i.b")                                    *)
 (*      present  the element has an entry in the persisted versions        *)
 (*      pers     sequence of persisted version strings                     *)
-(*      aincur / acur      what the real version.current() reported        *)
-(*      apresent / apers   what the version tables given to build() hold   *)
-(*   c.extra    number of entries version.current() reported for things    *)
-(*              that are not elements of the engine                        *)
+(* A recorded step has two such views: the reference view (versions        *)
+(* declared by the generated engine, persisted lists chosen by TLC resp.   *)
+(* recorded into the database) and the actual view (what the real          *)
+(* version.current() reported and what the version tables handed to        *)
+(* build() really held).  In the model the two coincide.                   *)
 (* result r:  r.err ("" = build returned), r.que (sequence of names),      *)
 (*            r.nodes sequence of [tag, todo (sequence)] one per DAG node  *)
 
@@ -140,53 +143,67 @@ KindOf(c, a) == c.algs[CHOOSE i \in DOMAIN c.algs : c.algs[i].name = a].kind
 (* reference *)
 Stale(e) == ~e.present \/ e.cur \notin Rng(e.pers)       \* "not among the persisted versions"
 Changed(c, a) == \E i \in DOMAIN c.els : c.els[i].owner = a /\ Stale(c.els[i])
-Want(c, a) == IF ~Changed(c, a) THEN {}
-              ELSE IF KindOf(c, a) = "analysis" THEN {ALL}
-              ELSE Rng(c.targets)
+ChangedSet(c) == { c.els[i].owner : i \in { k \in DOMAIN c.els : Stale(c.els[k]) } } \cap AlgNames(c)
+WantIf(c, ch, a) == IF a \notin ch THEN {}
+                    ELSE IF KindOf(c, a) = "analysis" THEN {ALL}
+                    ELSE Rng(c.targets)
+Want(c, a) == WantIf(c, ChangedSet(c), a)
 
 NodesOf(r, a) == { i \in DOMAIN r.nodes : r.nodes[i].tag = a }
 
 BuildClauses(c, r) ==
+    LET ch == ChangedSet(c)
+        que == Rng(r.que)
+    IN
          Fail("C15.Completes", r.err = "")
     \cup Fail("C15.OwnerScheduled",
-              \A a \in AlgNames(c) : Changed(c, a) =>
+              \A a \in ch :
                  /\ NodesOf(r, a) # {}
-                 /\ \A i \in NodesOf(r, a) : Rng(r.nodes[i].todo) = Want(c, a)
-                 /\ (Want(c, a) # {} => a \in Rng(r.que)))
+                 /\ \A i \in NodesOf(r, a) : Rng(r.nodes[i].todo) = WantIf(c, ch, a)
+                 /\ (WantIf(c, ch, a) # {} => a \in que))
     \cup Fail("C15.NothingElse",
-              /\ \A a \in AlgNames(c) : ~Changed(c, a) =>
-                    /\ a \notin Rng(r.que)
+              /\ \A a \in AlgNames(c) \ ch :
+                    /\ a \notin que
                     /\ \A i \in NodesOf(r, a) : r.nodes[i].todo = <<>>
               /\ \A i \in DOMAIN r.nodes : r.nodes[i].tag \in AlgNames(c) /\ NoDup(r.nodes[i].todo)
-              /\ Rng(r.que) \subseteq { a \in AlgNames(c) : Want(c, a) # {} }
+              /\ que \subseteq { a \in ch : WantIf(c, ch, a) # {} }
               /\ NoDup(r.que))
-    \cup Fail("C15.CurrentFaithful",
-              /\ c.extra = 0
-              /\ \A i \in DOMAIN c.els : c.els[i].aincur /\ c.els[i].acur = c.els[i].cur)
+
+(* the mechanisms that feed build(): ref = reference view, act = actual view,
+   extra = number of entries version.current() reported for things that are not
+   elements of the engine *)
+FaithClauses(ref, act, extra) ==
+         Fail("C15.CurrentFaithful",
+              /\ extra = 0
+              /\ \A i \in DOMAIN ref.els : act.els[i].incur /\ act.els[i].cur = ref.els[i].cur)
     \cup Fail("C15.PersistedFaithful",
-              \A i \in DOMAIN c.els : /\ (c.els[i].apresent <=> c.els[i].present)
-                                      /\ Rng(c.els[i].apers) = Rng(c.els[i].pers))
+              \A i \in DOMAIN ref.els : /\ (act.els[i].present <=> ref.els[i].present)
+                                        /\ Rng(act.els[i].pers) = Rng(ref.els[i].pers))
 
 (* transcription: _diff per table, the owner prefix, the loop of build(), organize() *)
 ImplDiff(c, lvl) ==                                         \* schedule._diff(latest[lvl-1], previous[lvl])
     { i \in DOMAIN c.els : /\ c.els[i].level = lvl
-                           /\ c.els[i].aincur
-                           /\ (~c.els[i].apresent \/ Occ(c.els[i].apers, c.els[i].acur) = 0) }
+                           /\ c.els[i].incur
+                           /\ (~c.els[i].present \/ Occ(c.els[i].pers, c.els[i].cur) = 0) }
 ImplAns(c) == { c.els[i].owner : i \in ImplDiff(c, 1) \cup ImplDiff(c, 2) \cup ImplDiff(c, 3) }
-ImplTodo(c, a) ==
-    IF a \notin ImplAns(c) THEN {}
+ImplTodoIf(c, ans, a) ==
+    IF a \notin ans THEN {}
     ELSE (IF KindOf(c, a) = "analysis" THEN {ALL} ELSE Rng(c.targets))      \* build(): n.set('todo', ...)
          \cup (IF KindOf(c, a) = "analysis" THEN {ALL} ELSE {})               \* organize(ans): targets = set()
-ImplQue(c) == { a \in AlgNames(c) : ImplTodo(c, a) # {} }                     \* organize(): non-idle jobs only
+ImplTodo(c, a) == ImplTodoIf(c, ImplAns(c), a)
+ImplQue(c) == LET ans == ImplAns(c) IN { a \in AlgNames(c) : ImplTodoIf(c, ans, a) # {} }   \* organize(): non-idle jobs only
 
 (* does an observed result coincide with the transcription? (drift, never an alarm) *)
 ImplAgrees(c, r) ==
+    LET ans == ImplAns(c) IN
     /\ r.err = ""
-    /\ Rng(r.que) = ImplQue(c)
-    /\ \A i \in DOMAIN r.nodes : Rng(r.nodes[i].todo) = ImplTodo(c, r.nodes[i].tag)
+    /\ Rng(r.que) = { a \in AlgNames(c) : ImplTodoIf(c, ans, a) # {} }
+    /\ \A i \in DOMAIN r.nodes : Rng(r.nodes[i].todo) = ImplTodoIf(c, ans, r.nodes[i].tag)
 
 -----------------------------------------------------------------------------
-(* the model: one state per input; pr for part (a), cs for part (b)         *)
-VARIABLES pr, cs
-mvars == <<pr, cs>>
+(* the model: one state per input.  ph = "pseed" / "pair" for part (a), "seed" /
+   "case" for part (b); pr and cs hold the input (and, for a case, the output
+   of the transcription) *)
+VARIABLES ph, pr, cs
+mvars == <<ph, pr, cs>>
 =============================================================================
